@@ -155,3 +155,33 @@ def process(ctx, content, env, trailing_newline=True):
         res.error = str(e)
     res.output = tuple(res.output)
     return res
+
+
+def temp_targets_all(ctx, content):
+    """every temp target named by a real temp directive of the source, found by the line state machine alone (nothing is
+    executed, errors are skipped as clean mode does): the set clean may remove"""
+    lines = source_lines(ctx, content)
+    out = []
+    i = 0
+    n = len(lines)
+    cur = None
+    while i < n:
+        line = lines[i]
+        if cur is None:
+            c = grammar.classify(ctx, line)
+            i += 1
+            if c is None:
+                continue
+            ws, prefix, ty, arg = c
+            if ty in grammar.MULTILINE and len(prefix) == 0:
+                continue                      # erroneous directive line: skipped
+            cur = (ws, prefix, ty, arg)
+            if ty == 'Temp':
+                out.append(tuple(arg))
+        else:
+            nxt = grammar.continuation(ctx, (cur[0], cur[1], cur[2]), line)
+            if nxt is None:
+                cur = None                    # the line is re-read as a fresh line
+            else:
+                i += 1
+    return out
